@@ -6,5 +6,6 @@ MenuB == {<<"node",1,1>>, <<"eph",1,2>>}
 MenuC == {<<"node",1,1>>}
 MenuD == {<<"fin",1,0>>, <<"node",1,1>>, <<"eph",1,2>>}
 MenuG == {<<"node",1,2>>, <<"node",2,3>>, <<"data",1,0>>, <<"data",2,0>>, <<"data",3,0>>, <<"eph",1,2>>, <<"fin",1,0>>}
+MenuW == {<<"node",1,2>>, <<"eph",1,2>>, <<"eph",1,2>>, <<"fin",1,0>>, <<"data",2,0>>}
 Sym == Permutations(Ids)
 =======================================================================
